@@ -16,6 +16,7 @@ import intervals
 from intervals import Iv
 from callgraph import CallGraph
 from .common import live_calls, is_iter_next, impl_fn, guards_of, ws_bodies
+from discharge import load_reviewed, discharge_site, ARRAYMAP_INDEX
 
 LEVEL = "proof"
 VERIF = os.path.dirname(os.path.dirname(os.path.dirname(os.path.abspath(__file__))))
@@ -32,14 +33,6 @@ EXEC_STOPS = [
     "weechess_engine::searcher::Searcher::analyze", "<weechess_core::state::State as core::default::Default>::default",
     "weechess_engine::book::OpeningBook::try_default", "<weechess_engine::eval::Evaluator as core::default::Default>::default",
 ]
-ARRAYMAP_INDEX = ("<weechess_core::utils::ArrayMap<I, T> as core::ops::index::Index<I>>::index",
-                  "<weechess_core::utils::ArrayMap<I, T> as core::ops::index::IndexMut<I>>::index_mut")
-
-
-def load_reviewed(pid):
-    with open(os.path.join(VERIF, "tables", "reviewed_sites.json")) as fh:
-        return {(e["function"], e["key"]): e for e in json.load(fh)["sites"] if pid in e["properties"]}
-
 
 def run(ck):
     ck.explanation = (
@@ -115,177 +108,6 @@ def setup(ck, ctx):
 # ---------------------------------------------------------------------------------------------- P1
 
 
-def regex_groups(pattern):
-    """Capturing groups of a regex literal: index -> always participates in a match?  (None if the pattern cannot be analysed)"""
-    groups = {}
-    stack = []   # open groups: dict(index or None, has_alt_before=False)
-    idx = 0
-    i = 0
-    n = len(pattern)
-    order = []
-    while i < n:
-        c = pattern[i]
-        if c == "\\":
-            i += 2
-            continue
-        if c == "[":
-            j = i + 1
-            if j < n and pattern[j] == "^":
-                j += 1
-            if j < n and pattern[j] == "]":
-                j += 1
-            while j < n and pattern[j] != "]":
-                if pattern[j] == "\\":
-                    j += 1
-                j += 1
-            i = j + 1
-            continue
-        if c == "(":
-            cap = True
-            if pattern[i + 1:i + 2] == "?":
-                cap = False
-                if pattern[i + 2:i + 3] == "P" or pattern[i + 2:i + 3] == "<" and pattern[i + 3:i + 4] not in ("=", "!"):
-                    cap = True
-            g = {"index": None, "alt": False, "start": i}
-            if cap:
-                idx += 1
-                g["index"] = idx
-            stack.append(g)
-            order.append(g)
-            i += 1
-            continue
-        if c == "|":
-            if stack:
-                stack[-1]["alt"] = True
-            else:
-                return None  # top-level alternation: nothing participates always
-            i += 1
-            continue
-        if c == ")":
-            if not stack:
-                return None
-            g = stack.pop()
-            # quantifier allowing zero repetitions?
-            q = pattern[i + 1:i + 2]
-            opt = q in ("?", "*")
-            if q == "{":
-                m = re.match(r"\{(\d+)", pattern[i + 1:])
-                opt = bool(m) and int(m.group(1)) == 0
-            g["optional"] = opt
-            g["parents"] = [x for x in stack]
-            i += 1
-            continue
-        i += 1
-    if stack:
-        return None
-    for g in order:
-        if g["index"] is None:
-            continue
-        always = not g.get("optional")
-        for p in g.get("parents", []):
-            # inside an alternation branch of a parent, or inside an optional parent -> may not participate
-            if p["alt"]:
-                always = False
-        groups[g["index"]] = always
-    # parents' optional flags are only known after they close: second pass
-    for g in order:
-        if g["index"] is None:
-            continue
-        for p in g.get("parents", []):
-            if p.get("optional") or p["alt"]:
-                groups[g["index"]] = False
-    return groups
-
-
-def discharge_call(ck, ctx, site, fa, tb):
-    """Callee-specific rules. Returns reason string if discharged, else None."""
-    prog = ck.prog
-    t = site.term
-    n = site.desc
-    st = fa.state_before_term(site.bb)
-    args = [fa.read_op(st, a) for a in t["args"]] if st is not None else []
-    base = n.split("::")[-1]
-    if n in panics.BENIGN:
-        return "benign: " + panics.BENIGN[n]
-    if n.startswith("std::thread::functions::spawn") or n.startswith("std::thread::spawn"):
-        return "benign: " + panics.BENIGN["std::thread::spawn"]
-    if base in ("to_digit", "from_digit", "from_str_radix") and len(args) >= 2 and args[1] is not None and not args[1].empty() and 2 <= args[1].lo and args[1].hi <= 36:
-        return "radix %s is within 2..=36" % args[1]
-    if ("ops::index::Index" in n or "ops::index::IndexMut" in n):
-        g = " ".join(t.get("generics", []))
-        # x[..]
-        if "core::ops::range::RangeFull" in g:
-            return "indexing with RangeFull never panics"
-        # regex captures by group number
-        if "regex::regex::string::Captures" in n:
-            body = site.body
-            gi = args[1] if len(args) > 1 else None
-            pats = ctx.setdefault("regex_patterns", regex_patterns_of(prog, body))
-            if gi is not None and gi.lo == gi.hi and len(pats) == 1:
-                groups = regex_groups(pats[0])
-                if groups is not None and groups.get(gi.lo) is True:
-                    return "capture group %d of the regex literal exists and participates in every match" % gi.lo
-                if gi.lo == 0:
-                    return "group 0 is the whole match"
-            return None
-        # slice[k..] dominated by a successful first()/len guard on the same slice
-        if "core::ops::range::RangeFrom<usize>" in g and st is not None:
-            start = None
-            rng_t = tb.operand(t["args"][1])
-            if rng_t[0] == "agg" and rng_t[1].endswith("RangeFrom::RangeFrom"):
-                start = const_value(rng_t[2][0])
-            recv = tb.operand(t["args"][0])
-            if start == 1:
-                for c, tk in guards_of(prog, site.body, site.bb, tb):
-                    x = c[1] if c[0] == "discr" else c
-                    if x[0] == "call" and x[1].endswith("<impl [T]>::first") and x[2][0] == recv and tk == 1:
-                        return "slice is non-empty on this path (first() matched Some) so [1..] is in bounds"
-            if start == 0:
-                return "[0..] never panics"
-        # Vec/slice index by usize with an interval bound
-        if len(args) > 1 and args[1] is not None and args[0] is None:
-            pass
-        return None
-    if base in ("unwrap", "expect") and st is not None:
-        # unwrap of a guarded constructor applied to an argument inside its success range
-        r = tb.operand(t["args"][0])
-        if r[0] == "call":
-            sr = ctx["scope_eng"].success_range(r[1])
-            if sr is not None:
-                # find the call terminator defining the receiver to evaluate its argument interval
-                rl = t["args"][0].get("move") or t["args"][0].get("copy")
-                for d in fa.defs.get(rl["l"], []) if rl else []:
-                    if "call" in d:
-                        st2 = fa.state_before_term(_bb_of_call(site.body, d["call"]))
-                        if st2 is not None:
-                            av = fa.read_op(st2, d["call"]["args"][sr[0] - 1])
-                            if av is not None and av.within(sr[1]):
-                                return "argument %s lies inside the success range %s of %s" % (av, sr[1], r[1].split("::")[-2])
-    return None
-
-
-def _bb_of_call(body, term):
-    for bb, blk in enumerate(body.blocks):
-        if blk["term"] is term:
-            return bb
-    return None
-
-
-def regex_patterns_of(prog, body):
-    """String literals passed to Regex::new in the body."""
-    out = []
-    tb = TermBuilder(prog, body)
-    for bb, t in live_calls(body):
-        if callee_name(t).endswith("Regex::new"):
-            a = tb.operand(t["args"][0])
-            for x in walk(a):
-                if x[0] == "const":
-                    v = thaw(x[2])
-                    if isinstance(v, dict) and "$str" in v:
-                        out.append(v["$str"])
-    return out
-
-
 def p1_inventory(ck, ctx):
     prog = ck.prog
     res = ctx["scope_res"]
@@ -299,34 +121,12 @@ def p1_inventory(ck, ctx):
         if fa is None:
             ck.fail("P1.analysed", n, b.where(), "function in scope was not analysed (too large)")
             continue
-        tb = None
+        tb = TermBuilder(prog, b)
         for site in panics.inventory(prog, b):
             total += 1
             key = "%s:%s" % (n, site.key)
-            why = None
-            if not fa.feasible(site.bb):
-                why = "infeasible"
-                counts["infeasible"] += 1
-            elif site.kind.startswith("assert"):
-                if n in ARRAYMAP_INDEX or n == "weechess_core::utils::ArrayMap::<I, T>::index":
-                    why = "array_key"
-                    counts["array_key"] += 1
-                else:
-                    cv = fa.cond_value(site.bb)
-                    if cv is not None and cv == site.term["expected"]:
-                        why = "interval"
-                        counts["interval"] += 1
-            elif site.kind == "call":
-                tb = tb or TermBuilder(prog, b)
-                r = discharge_call(ck, ctx, site, fa, tb)
-                if r is not None:
-                    why = r
-                    counts["benign" if r.startswith("benign") else "rule"] += 1
-            if why is None and (n, site.key) in reviewed:
-                why = "reviewed: " + reviewed[(n, site.key)]["reason"]
-                used_reviews.add((n, site.key))
-                counts["reviewed"] += 1
-            if why is None:
+            cat, why = discharge_site(prog, ctx, n, site, fa, tb, ctx["scope_eng"], reviewed, used_reviews)
+            if cat is None:
                 st = fa.state_before_term(site.bb)
                 detail = ""
                 if st is not None and site.term["k"] == "assert":
@@ -334,9 +134,10 @@ def p1_inventory(ck, ctx):
                 ck.fail("P1.undischarged", key, site.where(),
                         "panic site %s cannot be excluded for all inputs%s (callers' argument ranges: %s)" % (site.desc[:140], detail, {k: str(v) for k, v in ctx["scope_param_env"].get(n, {}).items()}))
             else:
-                ck.ok("P1.discharged", key, site.where(), why[:160])
-                if len(ck.samples) < 30 and not why.startswith("benign"):
-                    ck.sample({"rule": "P1", "site": key, "how": why[:160]})
+                counts[cat] = counts.get(cat, 0) + 1
+                ck.ok("P1.discharged", key, site.where(), (cat + ": " + why)[:160])
+                if len(ck.samples) < 30 and cat not in ("benign",):
+                    ck.sample({"rule": "P1", "site": key, "how": (cat + ": " + why)[:160]})
     ck.extra["panic_sites"] = total
     ck.extra["discharge_counts"] = counts
     ck.floor("P1", total, 60, "panic sites in the text-layer scope")
@@ -440,7 +241,7 @@ def ak_array_keys(ck, ctx):
         ck.req(good, "AK.bound", ty.split("::")[-1], prog.body(fn).where(), "Index::from(%s) ranges over %s but COUNT is %s" % (ty.split("::")[-1], top, count["value"]),
                "index %s < COUNT %s" % (top, count["value"]))
     # ArrayMap::index / index_mut use exactly `self.array[index.into().0]` with an array of length I::COUNT
-    for n in ARRAYMAP_INDEX:
+    for n in ARRAYMAP_INDEX[:2]:
         b = ck.body(n, "AK")
         asserts = [t for bb, blk in enumerate(b.blocks) for t in [blk["term"]] if t["k"] == "assert" and t["msg"] == "BoundsCheck"]
         ck.req(len(asserts) == 1, "AK.single_access", n.split("::")[-1], b.where(), "expected one bounds-checked array access, found %d" % len(asserts))
@@ -460,8 +261,9 @@ def si_success_implies(ck, ctx):
         bad = []
         try:
             for v in range(lo, hi + 1):
-                r = m(v)
-                success = isinstance(r, tuple) and r[0] in ("Some", "Ok")
+                path, _env = m.select(v)
+                rt = path.ret
+                success = rt[0] == "agg" and rt[1].endswith(("Option::Some", "Result::Ok"))
                 if success and not (rlo <= v <= rhi):
                     bad.append(v)
         except CannotFold as e:
